@@ -85,6 +85,7 @@ type State struct {
 	Choices []int           // zzvp.Choose decisions taken on this path
 	Asserts []pendingAssert // assertions awaiting discharge at the end of the path (one batched query)
 	Spy     []spyRec        // calls of harness-declared contract stubs on this path (arguments and results)
+	Dead    bool            // already reported as finished (dropped) from inside a region
 }
 
 type spyRec struct {
